@@ -44,7 +44,7 @@ type workItem struct {
 	level int // 0 default schedule only, 1 +held jobs, 2 +lag/start-only/frontier order, 3 +all map orders and pairs of held jobs
 }
 
-func workList(thorough bool) []workItem {
+func workList(prop string, thorough bool) []workItem {
 	var out []workItem
 	maxDev := 3
 	if thorough {
@@ -72,7 +72,11 @@ func workList(thorough bool) []workItem {
 	}
 	for _, d := range progen.DisNestFamily(thorough) {
 		d := d
-		out = append(out, workItem{DfCase{Family: "disnest", Dn: &d}, 1})
+		lvl := 0
+		if prop == "C02" || thorough {
+			lvl = 1
+		}
+		out = append(out, workItem{DfCase{Family: "disnest", Dn: &d}, lvl})
 	}
 	return out
 }
@@ -172,7 +176,7 @@ func DataflowCheck(prop string) {
 		}
 		r.Finish()
 	}
-	fam := workList(r.Thorough())
+	fam := workList(prop, r.Thorough())
 	if !ev.IsWorker() {
 		maxDev := 3
 		if r.Thorough() {
